@@ -11,12 +11,13 @@ components, so blacklisting `out` does not hide `output/`."
 * code  : `findAll facts cfg p t` -- `plz.FindAllBuildFiles` + `godirwalk.Walk`, the callback interpreted from
           the formulas regenerated from src/plz/plz.go on this run (`Generated.C22`);
 * spec  : `specNames plzOut cfg p t` -- BUILD files of the non-excluded directories, exclusion decided on lists
-          of path components (`specExcluded`, `compMatch`), no string prefixes anywhere.
+          of path components (`specExcluded`, `compMatch`), no string prefixes anywhere; characterised
+          declaratively by `C22_spec_declarative`.
 
-The property as stated is FALSE for the pinned code (two independent root causes, both with a machine-checked
-witness below); what does hold: soundness without any condition, exactness on benign trees, exactness of the
-repaired callback; and the recursive specification is characterised declaratively
-(`C22_spec_declarative`).
+The property holds at full strength for the code as repaired by the two `fix:` commits (blacklist matched by whole
+components; `filepath.SkipDir` returned for directories only): `C22_exact`.  The two defects of the structure the
+source had before (`Facts.canon`) stay on record as theorems about that structure, and as conditional statements
+about any facts whose callback is the old one.
 -/
 namespace PlzVerif.Props.C22
 open PlzVerif.Walk PlzVerif.Generated
@@ -26,155 +27,120 @@ def facts : Facts :=
   { outDir := C22.outDir, chain := C22.chain, blCond := C22.blCond,
     cutOnNonDir := C22.cutOnNonDir, sorted := C22.sorted }
 
-/-- Side condition on the regenerated facts (decidable: formulas compared under all 256 resp. 32 valuations of the atoms they may mention). -/
+/-- Side condition on the regenerated facts (decidable: formulas compared under all 256 resp. 32 valuations of the
+    atoms they may mention): the callback is, up to propositional equivalence, the repaired one. -/
 def FactsOK : Bool :=
   decide (C22.outDir = plzOut) &&
-  decide (ChainEquiv C22.chain Facts.canon.chain) &&
-  (decide (CondEquiv C22.blCond Facts.canon.blCond) || decide (CondEquiv C22.blCond blCondComponent)) &&
+  decide (ChainEquiv C22.chain Facts.repaired.chain) &&
+  decide (CondEquiv C22.blCond Facts.repaired.blCond) &&
   C22.sorted && C22.walkPassesIsDir && C22.rootEmptyBecomesDot && C22.expandPrefixArg == ""
 
 /-- Obligation a code change can break. -/
 theorem C22_facts_ok : FactsOK = true := by decide +kernel
 
-/-- The blacklist test in effect: today `strings.HasPrefix(name, dir)`; `blComp` once matching is by component. -/
-def blTest : Name → Name → Name → Bool :=
-  if CondEquiv C22.blCond Facts.canon.blCond then blStr else blComp
-
-theorem callback_facts : callback facts = cbCanon blTest := by
+theorem callback_facts : callback facts = cbRepaired := by
   have h := C22_facts_ok
-  simp only [FactsOK, Bool.and_eq_true, Bool.or_eq_true, decide_eq_true_eq] at h
+  simp only [FactsOK, Bool.and_eq_true, decide_eq_true_eq] at h
   obtain ⟨⟨⟨⟨⟨⟨ho, hc⟩, hb⟩, _⟩, _⟩, _⟩, _⟩ := h
-  unfold blTest
-  by_cases h1 : CondEquiv C22.blCond Facts.canon.blCond
-  · rw [if_pos h1, ← callback_canon]
-    exact callback_congr facts Facts.canon ho hc h1
-  · rw [if_neg h1, ← callback_canonComp]
-    rcases hb with hb | hb
-    · exact absurd hb h1
-    · exact callback_congr facts Facts.canonComp ho hc hb
-
-theorem blTest_sound (q : List Name) (d : Name) (g : goodPath q = true)
-    (h : (d == lastOr q || compMatch d q) = true) : blTest (nameOf q) (lastOr q) d = true := by
-  unfold blTest; split
-  · exact blStr_of_comp q d h
-  · rw [blComp_eq q d g]; exact h
+  rw [← callback_repaired]
+  exact callback_congr facts Facts.repaired ho hc hb
 
 theorem findAll_eq (cfg : Config) (p : List Name) (t : Tree) :
-    findAll facts cfg p t = (walk (cbCanon blTest cfg) C22.cutOnNonDir (nameOf p) t.sort).1 := by
+    findAll facts cfg p t = (walk (cbRepaired cfg) C22.cutOnNonDir (nameOf p) t.sort).1 := by
   have hs : facts.sorted = true := by
     have h := C22_facts_ok
     simp only [FactsOK, Bool.and_eq_true] at h
     exact h.1.1.1.2
   simp only [findAll, hs, if_true, callback_facts]; rfl
 
-/-- **Soundness, unconditional.**  Every name `FindAllBuildFiles` sends is a BUILD file of a directory under
-    `p` that the specification does not exclude: no configuration, prefix argument, tree shape or listing
-    order makes the expansion contain a package it should not. -/
+/-- **The property, full strength.**  For every directory tree (any listing order, symlinks, files and
+    directories with any names), every configuration of BUILD file names, experimental directories and blacklist
+    entries, and every start directory `p`: `FindAllBuildFiles(config, p, "")` yields *exactly* the specified list --
+    the BUILD files of the directories under `p` that are not `plz-out`, hidden, experimental or blacklisted by whole
+    path components -- in the order of the sorted listing, whatever godirwalk does with `SkipDir` on a
+    non-directory (the callback no longer returns it for one). -/
+theorem C22_exact (cfg : Config) (p : List Name) (cs : Forest) (w : Forest.wf cs = true)
+    (g : goodPath p = true) (hp : cfg.pfx = []) :
+    findAll facts cfg p (.dir cs) = specNames plzOut cfg p (Tree.dir cs).sort := by
+  rw [findAll_eq]
+  have w' : Forest.wf cs.sort = true := by rw [wfF_sort]; exact w
+  have ha := allNodes_mono (fun _ _ => true) (agreeAt (cbRepaired cfg) C22.cutOnNonDir plzOut cfg) (specExcluded plzOut cfg)
+    (fun q k gq _ => agree_repaired C22.cutOnNonDir cfg hp q k gq)
+    (Tree.dir cs).sort p (by simpa [Tree.sort, Tree.wf] using w') g (allNodes_true _ _ _)
+  simp only [Tree.sort] at ha ⊢
+  rw [walk_eq_spec _ _ plzOut cfg cs.sort p w' g ha]
+
+/-- ... and as a set of packages it does not depend on the order of the directory listing. -/
+theorem C22_exact_set (cfg : Config) (p : List Name) (cs : Forest) (w : Forest.wf cs = true)
+    (g : goodPath p = true) (hp : cfg.pfx = []) :
+    (findAll facts cfg p (.dir cs)).Perm (specNames plzOut cfg p (.dir cs)) := by
+  rw [C22_exact cfg p cs w g hp]
+  exact (spec_sort plzOut cfg (.dir cs) p).map nameOf
+
+-- non-vacuity, on the two shapes that used to fail: blacklist `out` next to `output/`, and a file `m` matching a
+-- blacklist entry next to the package `q/`
+example : findAll facts ⟨[['B']], [], [['o', 'u', 't']], []⟩ []
+    (.dir (.cons ['o', 'u', 't', 'p', 'u', 't'] (.dir (.cons ['B'] (.leaf .file) .nil)) .nil))
+    = [['o', 'u', 't', 'p', 'u', 't', '/', 'B']] := by decide
+example : findAll facts ⟨[['B']], [], [['m']], []⟩ []
+    (.dir (.cons ['m'] (.leaf .file) (.cons ['q'] (.dir (.cons ['B'] (.leaf .file) .nil)) .nil))) = [['q', '/', 'B']] := by decide
+
+/-- **Soundness for any `prefix` argument** (the other caller shapes of `FindAllBuildFiles`): nothing outside the
+    specification is ever yielded. -/
 theorem C22_sound (cfg : Config) (p : List Name) (cs : Forest) (w : Forest.wf cs = true) (g : goodPath p = true) :
     ∀ x ∈ findAll facts cfg p (.dir cs), x ∈ specNames plzOut cfg p (.dir cs) := by
   intro x hx
   rw [findAll_eq] at hx
   have w' : Forest.wf cs.sort = true := by rw [wfF_sort]; exact w
-  have := walk_sound (cbCanon blTest cfg) C22.cutOnNonDir plzOut cfg
-    (fun q gq => cbCanon_sound_dir blTest cfg (fun q d gq h => blTest_sound q d gq h) q gq)
-    (fun q gq => cbCanon_sound_leaf blTest cfg q gq) cs.sort p w' g x (by simpa [Tree.sort] using hx)
+  have := walk_sound (cbRepaired cfg) C22.cutOnNonDir plzOut cfg
+    (fun q gq => cbRepaired_sound_dir cfg q gq) (fun q gq => cbRepaired_sound_leaf cfg q gq)
+    cs.sort p w' g x (by simpa [Tree.sort] using hx)
   have hp := (spec_sort plzOut cfg (.dir cs) p).map nameOf
   exact hp.mem_iff.mp (by simpa [specNames, Tree.sort] using this)
 
-example : findAll facts ⟨[['B']], [], [], []⟩ [] (.dir (.cons ['a'] (.dir (.cons ['B'] (.leaf .file) .nil)) .nil))
-    = [['a', '/', 'B']] := by decide
+/-- String prefix vs component prefix, the heart of the first repair: on clean paths the whole-component test on
+    strings (`dir == basename || name == dir || strings.HasPrefix(name, dir+"/")`) coincides with equality of
+    component sequences. -/
+theorem C22_component_test (q : List Name) (d : Name) (g : goodPath q = true) :
+    blComp (nameOf q) (lastOr q) d = (d == lastOr q || compMatch d q) := blComp_eq q d g
 
-/-- **Exactness on benign trees (partial).**  If, on the part of the tree the specification walks, every
-    blacklist entry that string-matches a directory also matches it by whole components, and no non-directory
-    entry gives the callback a reason to return `filepath.SkipDir`, then the expansion is *exactly* the
-    specified list -- same elements, same order (the sorted listing's order).
-    Full statement (false today, see the witnesses): the same without the `benign` hypothesis. -/
-theorem C22_exact_partial (cfg : Config) (p : List Name) (cs : Forest) (w : Forest.wf cs = true)
-    (g : goodPath p = true) (hc : cfgOK plzOut cfg = true)
-    (hb : benign blTest plzOut cfg p (.dir cs) = true) :
-    findAll facts cfg p (.dir cs) = specNames plzOut cfg p (Tree.dir cs).sort := by
-  rw [findAll_eq]
-  have w' : Forest.wf cs.sort = true := by rw [wfF_sort]; exact w
-  have hb' : benign blTest plzOut cfg p (Tree.dir cs).sort = true := by
-    unfold benign at hb ⊢; rw [allNodes_sort]; exact hb
-  have ha := allNodes_mono _ (agreeAt (cbCanon blTest cfg) C22.cutOnNonDir plzOut cfg) (specExcluded plzOut cfg)
-    (fun q k gq h => agree_of_benign blTest C22.cutOnNonDir cfg (fun q d gq h => blTest_sound q d gq h) hc q k gq h)
-    (Tree.dir cs).sort p (by simpa [Tree.sort, Tree.wf] using w') g hb'
-  simp only [Tree.sort] at ha ⊢
-  rw [walk_eq_spec _ _ plzOut cfg cs.sort p w' g ha]
+/-! ### on record: the structure before the two fix commits (`Facts.canon`) violated the property -/
 
-/-- ... and the specified list of the sorted listing is a permutation of the specified list of the listing in
-    any other order: as a set of packages the expansion does not depend on directory order. -/
-theorem C22_exact_partial_set (cfg : Config) (p : List Name) (cs : Forest) (w : Forest.wf cs = true)
-    (g : goodPath p = true) (hc : cfgOK plzOut cfg = true)
-    (hb : benign blTest plzOut cfg p (.dir cs) = true) :
-    (findAll facts cfg p (.dir cs)).Perm (specNames plzOut cfg p (.dir cs)) := by
-  rw [C22_exact_partial cfg p cs w g hc hb]
-  exact (spec_sort plzOut cfg (.dir cs) p).map nameOf
-
--- the hypotheses are satisfiable by a non-trivial tree: blacklist `out`, directories `out/` and `pkg/`
-example : benign blTest plzOut ⟨[['B']], [], [['o', 'u', 't']], []⟩ []
-    (.dir (.cons ['o', 'u', 't'] (.dir (.cons ['B'] (.leaf .file) .nil))
-      (.cons ['p', 'k', 'g'] (.dir (.cons ['B'] (.leaf .file) .nil)) .nil))) = true := by decide
-
-/-! ### the property as stated fails: two root causes -/
-
-/-- Configuration of the first witness: BUILD file name `B`, blacklist `out`. -/
+/-- BUILD file name `B`, blacklist `out`; `output/B` exists. -/
 def cfgW1 : Config := ⟨[['B']], [], [['o', 'u', 't']], []⟩
-/-- `output/B` exists. -/
 def treeW1 : Tree := .dir (.cons ['o', 'u', 't', 'p', 'u', 't'] (.dir (.cons ['B'] (.leaf .file) .nil)) .nil)
+/-- BUILD file name `B`, blacklist `m`; a regular file `m` next to a package `q/`. -/
+def cfgW2 : Config := ⟨[['B']], [], [['m']], []⟩
+def treeW2 : Tree := .dir (.cons ['m'] (.leaf .file) (.cons ['q'] (.dir (.cons ['B'] (.leaf .file) .nil)) .nil))
 
-/-- **Witness 1 (blacklist by string prefix, src/plz/plz.go:263).**  Blacklisting `out` hides `output/`:
-    the specification lists `output/B`, the walk (with today's structure, `Facts.canon`) yields nothing. -/
-theorem C22_witness_blacklist_string_prefix :
+/-- **Old structure, witness 1 (blacklist by string prefix: `strings.HasPrefix(name, dir)`).**  Blacklisting `out`
+    hid `output/`.  A statement about `Facts.canon`, the formulas the source had before the repair. -/
+theorem C22_old_witness_blacklist_string_prefix :
     Tree.wf treeW1 = true ∧ cfgOK plzOut cfgW1 = true ∧
     findAll Facts.canon cfgW1 [] treeW1 = [] ∧
     specNames plzOut cfgW1 [] treeW1 = [['o', 'u', 't', 'p', 'u', 't', '/', 'B']] := by decide
 
-/-- Configuration of the second witness: BUILD file name `B`, blacklist `m` (whole-component semantics would
-    not help: the entry *is* named `m`). -/
-def cfgW2 : Config := ⟨[['B']], [], [['m']], []⟩
-/-- A regular file `m` next to a package `q/`. -/
-def treeW2 : Tree := .dir (.cons ['m'] (.leaf .file) (.cons ['q'] (.dir (.cons ['B'] (.leaf .file) .nil)) .nil))
-
-/-- **Witness 2 (`filepath.SkipDir` returned for a non-directory, src/plz/plz.go:251/259/264 with
-    godirwalk walk.go "stop processing remaining siblings").**  A regular *file* whose name matches a
-    blacklist entry (or is `plz-out`, or equals an experimental path) makes godirwalk drop every later
-    sibling: `q/B` is never found.  Independent of witness 1: it also fails with the whole-component test. -/
-theorem C22_witness_nondir_skipdir_cuts_siblings :
+/-- **Old structure, witness 2 (`filepath.SkipDir` returned for a non-directory; godirwalk then drops the
+    remaining siblings).**  Independent of witness 1: it also failed with the whole-component test. -/
+theorem C22_old_witness_nondir_skipdir_cuts_siblings :
     Tree.wf treeW2 = true ∧ cfgOK plzOut cfgW2 = true ∧
     findAll Facts.canon cfgW2 [] treeW2 = [] ∧
     findAll Facts.canonComp cfgW2 [] treeW2 = [] ∧
     specNames plzOut cfgW2 [] treeW2 = [['q', '/', 'B']] := by decide
 
-/-- The same with a file literally named `plz-out` and an empty blacklist. -/
-theorem C22_witness_plzout_file :
-    findAll Facts.canon ⟨[['B']], [], [], []⟩ []
-      (.dir (.cons plzOut (.leaf .file) (.cons ['q'] (.dir (.cons ['B'] (.leaf .file) .nil)) .nil))) = [] ∧
-    specNames plzOut ⟨[['B']], [], [], []⟩ []
-      (.dir (.cons plzOut (.leaf .file) (.cons ['q'] (.dir (.cons ['B'] (.leaf .file) .nil)) .nil))) = [['q', '/', 'B']] := by
-  decide
+/-- The witnesses, conditional on the *old facts*: for any facts whose callback is the old one (and godirwalk's
+    sorted walk with the cut on a non-directory `SkipDir`), the two expansions are empty although the
+    specification lists a package.  With the facts read on this run the hypothesis is false. -/
+theorem C22_witnesses_if_old_callback (F : Facts) (hcb : callback F = callback Facts.canon)
+    (hs : F.sorted = true) (hc : F.cutOnNonDir = true) :
+    findAll F cfgW1 [] treeW1 = [] ∧ findAll F cfgW2 [] treeW2 = [] ∧
+    specNames plzOut cfgW1 [] treeW1 ≠ [] ∧ specNames plzOut cfgW2 [] treeW2 ≠ [] := by
+  refine ⟨?_, ?_, by decide, by decide⟩
+  · simp only [findAll, hcb, hs, hc, if_true]; decide
+  · simp only [findAll, hcb, hs, hc, if_true]; decide
 
-/-- The two witnesses tied to the facts read from /repo ON THIS RUN (the theorems above are about the hand-written
-    `Facts.canon`): while the blacklist test extracted from the source is the string-prefix one, `findAll facts`
-    misses `output/B`; while godirwalk's cut on a non-directory `SkipDir` is in effect, it misses `q/B`.  After an
-    upstream repair the hypotheses become false and these stop applying, instead of silently describing old code. -/
-theorem C22_witness_blacklist_today (h : CondEquiv C22.blCond Facts.canon.blCond) :
-    findAll facts cfgW1 [] treeW1 = [] ∧ specNames plzOut cfgW1 [] treeW1 ≠ [] := by
-  refine ⟨?_, by decide⟩
-  rw [findAll_eq]; unfold blTest; rw [if_pos h]
-  cases C22.cutOnNonDir <;> decide
-
-theorem C22_witness_nondir_skipdir_today (hc : C22.cutOnNonDir = true) :
-    findAll facts cfgW2 [] treeW2 = [] ∧ specNames plzOut cfgW2 [] treeW2 ≠ [] := by
-  refine ⟨?_, by decide⟩
-  rw [findAll_eq, hc]; unfold blTest
-  split <;> decide
-
-example : CondEquiv C22.blCond Facts.canon.blCond ∧ C22.cutOnNonDir = true := by decide +kernel
-
-/-- **The full-strength statement is refuted** for the structure the source has today. -/
-theorem C22_exact_refuted :
+/-- The old structure refutes the full-strength statement (why the repair was needed). -/
+theorem C22_old_structure_refuted :
     ¬ ∀ (cfg : Config) (p : List Name) (cs : Forest), Forest.wf cs = true → goodPath p = true →
         cfgOK plzOut cfg = true →
         (findAll Facts.canon cfg p (.dir cs)).Perm (specNames plzOut cfg p (.dir cs)) := by
@@ -186,39 +152,6 @@ theorem C22_exact_refuted :
   simp only [treeW1] at e1 e2
   rw [e1, e2] at this
   exact absurd this.length_eq (by decide)
-
-/-- The facts read on this run are (up to propositional equivalence of the formulas) that structure, or the
-    structure with the whole-component blacklist test. -/
-theorem C22_facts_are_canon : callback facts = callback Facts.canon ∨ callback facts = callback Facts.canonComp := by
-  rw [callback_facts, callback_canon, callback_canonComp]
-  unfold blTest; split
-  · exact Or.inl rfl
-  · exact Or.inr rfl
-
-/-! ### the proposed repair restores the property -/
-
-/-- **Exactness of the repaired callback, unconditional.**  With the blacklist matched by whole components
-    (`dir == basename || name == dir || strings.HasPrefix(name, dir+"/")`) and `filepath.SkipDir` returned for
-    directories only, the walk yields exactly the specified list for every well-formed tree and every
-    configuration -- whatever godirwalk does with `SkipDir` on a non-directory (`cut`). -/
-theorem C22_fixed_exact (cut : Bool) (cfg : Config) (p : List Name) (cs : Forest) (w : Forest.wf cs = true)
-    (g : goodPath p = true) (hc : cfgOK plzOut cfg = true) :
-    (walk (cbFixed cfg) cut (nameOf p) (Tree.dir cs).sort).1 = specNames plzOut cfg p (Tree.dir cs).sort := by
-  have w' : Forest.wf cs.sort = true := by rw [wfF_sort]; exact w
-  have ha := allNodes_mono (fun _ _ => true) (agreeAt (cbFixed cfg) cut plzOut cfg) (specExcluded plzOut cfg)
-    (fun q k gq _ => agree_fixed cut cfg hc q k gq)
-    (Tree.dir cs).sort p (by simpa [Tree.sort, Tree.wf] using w') g (allNodes_true _ _ _)
-  simp only [Tree.sort] at ha ⊢
-  rw [walk_eq_spec _ _ plzOut cfg cs.sort p w' g ha]
-
--- on both witnesses the repaired callback finds the package
-example : (walk (cbFixed cfgW1) true (nameOf []) treeW1.sort).1 = [['o', 'u', 't', 'p', 'u', 't', '/', 'B']] := by decide
-example : (walk (cbFixed cfgW2) true (nameOf []) treeW2.sort).1 = [['q', '/', 'B']] := by decide
-
-/-- String prefix vs component prefix, the heart of root cause 1: on clean paths the whole-component test on
-    strings coincides with equality of component sequences. -/
-theorem C22_component_test (q : List Name) (d : Name) (g : goodPath q = true) :
-    blComp (nameOf q) (lastOr q) d = (d == lastOr q || compMatch d q) := blComp_eq q d g
 
 /-! ### the specification, declaratively -/
 
